@@ -100,13 +100,13 @@ def enclosing_fn(lines, lineno):
     return '?'
 
 
-def run_unit(unit, repo='/repo', rlimit=50, seed=None, threads=None, keep=True):
+def run_unit(unit, repo='/repo', rlimit=50, seed=None, threads=None, keep=True, workdir_tag=None):
     t0 = time.time()
-    os.makedirs(os.path.join(WORK, unit), exist_ok=True)
-    out_path = os.path.join(WORK, unit, 'vx_%s.rs' % unit)
+    wd = os.path.join(WORK, unit if not workdir_tag else '%s.%s' % (unit, workdir_tag))
+    os.makedirs(wd, exist_ok=True)
+    out_path = os.path.join(wd, 'vx_%s.rs' % unit)
     res = {'unit': unit, 'status': None, 'failures': [], 'undecided': [], 'functions': [], 'verified': 0, 'errors': 0,
            'extracts': [], 'trusted': [], 'cmd': None, 'smt_ms': 0, 'wall_s': 0.0, 'file': out_path}
-    extract.SourceFile.cache.clear()
     try:
         meta = extract.assemble(VERIF, repo, unit, out_path)
     except extract.ExtractError as e:
@@ -125,11 +125,11 @@ def run_unit(unit, repo='/repo', rlimit=50, seed=None, threads=None, keep=True):
     if seed is not None:
         cmd += ['-V', 'smt.random_seed=%d' % (seed % 100000)] if False else []
     res['cmd'] = ' '.join(cmd)
-    p = subprocess.run(cmd, stdout=subprocess.PIPE, stderr=subprocess.PIPE, text=True, cwd=os.path.join(WORK, unit))
+    p = subprocess.run(cmd, stdout=subprocess.PIPE, stderr=subprocess.PIPE, text=True, cwd=wd)
     res['wall_s'] = time.time() - t0
-    with open(os.path.join(WORK, unit, 'verus.stderr'), 'w') as f:
+    with open(os.path.join(wd, 'verus.stderr'), 'w') as f:
         f.write(p.stderr)
-    with open(os.path.join(WORK, unit, 'verus.stdout'), 'w') as f:
+    with open(os.path.join(wd, 'verus.stdout'), 'w') as f:
         f.write(p.stdout)
     js = None
     try:
